@@ -7,7 +7,7 @@ from ..progen import gen_program, profile
 
 ID = "C07"
 PREFIX = ('c07:', 'c02:leaf-mismatch')
-PROFILE = profile(group=18, start=30, spawn=6, cancel=18, catch=8, scope=10, ext=3, native_ext=4, patterns={'native_cancel_of_start_caller': 2, 'outsider_start_enclosing_cancel': 2, 'shielded_start_caller_group_failure': 1, 'native_cancel_at_final_checkpoint': 1, '_chance': 22}, **{'yield': 18})
+PROFILE = profile(group=18, start=30, spawn=6, cancel=18, catch=8, scope=10, ext=3, native_ext=4, patterns={'native_cancel_of_start_caller': 2, 'outsider_start_enclosing_cancel': 2, 'shielded_start_caller_group_failure': 1, 'native_cancel_at_final_checkpoint': 1, 'native_cancel_after_prestart_failure': 1, '_chance': 24}, **{'yield': 18})
 RULE = ("Hypothesis-generated programs around TaskGroup.start(): scripted children (k checkpoints, then started(v)/raise/return/block, optional second started(), further work then return/raise/block, cleanup on cancellation that re-raises, swallows or raises) with the caller's, the group's or an enclosing scope cancelled at generated cycles, sequential and concurrent starts; non-trivial = a start() whose caller was cancelled before started(), or a child failing after started(); distinct = distinct canonical JSON")
 ASSUMPTIONS = ["reference semantics (mirror) evaluated on public attributes cancel_called/shield of every scope on the chain; the only private access is fetching a child's handle scope object at its first step", 'every indefinite wait sits in a harness guard scope cancelled after 40 cycles', "asyncio's FIFO ready queue is not permuted; schedules vary through generated delays, cancel placement, external loop callbacks and loop configuration"]
 TECHNIQUE = "Hypothesis-generated handshake programs; protocol rules over the observed history (value identity, exception routing, child-ended-before-reraise, exactly-once with C02's leaf rule)"
